@@ -65,7 +65,8 @@ Inductive preq :=
                                           (* a user connection accepted by a proxy of the session; user id = thread id;
                                              [eof]: how Dispatcher.Send's select resolves once doneCh is closed *)
 | RTimeout (u : nat)                      (* the time.After timer of user thread u *)
-| RTeardown.                              (* Control.worker after the dispatcher is done *)
+| RTeardown                               (* Control.worker after the dispatcher is done *)
+| RSendLoop.                              (* msg.Dispatcher.sendLoop of the control connection *)
 
 Inductive wpc := WLookup | WSend | WCloseIt | WDone.
 Inductive upc :=
@@ -76,8 +77,9 @@ Inductive upc :=
 | UWrite (i : Z) (c : nat)     (* WriteMsg(StartWorkConn) on c *)
 | UDone.
 Inductive tpc := TStop | TCloseCh | TDrain | TDel | TFin.
+Inductive spc := SLRun | SLEnd.
 
-Inductive tstate := TNone | TW (p : wpc) | TU (p : upc) | TT (p : tpc) | TTimer.
+Inductive tstate := TNone | TW (p : wpc) | TU (p : upc) | TT (p : tpc) | TTimer | TS (p : spc).
 
 (* what is in a connection's hands *)
 Inductive pfate :=
@@ -96,13 +98,26 @@ Record pcfg := {
   cf_client_pc : Z;            (* Login.PoolCount *)
   cf_server_max : Z;           (* transport.maxPoolCount *)
   cf_reqs : list preq;         (* thread programs; thread id = position *)
-  cf_dead : nat -> bool        (* oracle: the peer has reset conn c before the server writes on it *)
+  cf_dead : nat -> bool;       (* oracle: the peer has reset conn c before the server writes on it *)
+  cf_qcap : Z;                 (* capacity of Dispatcher.sendCh (100 in NewDispatcher) *)
+  cf_wfail : Z -> bool;        (* oracle: WriteMsg of the k-th dequeued control message fails *)
+  cf_sl_survives : bool        (* sendLoop goes on after a failed WriteMsg (it ignores the result) *)
+}.
+
+(* the control-message dispatcher as far as ReqWorkConn is concerned: Dispatcher.Send is
+     select { case <-doneCh: return EOF; case sendCh <- m: return nil }
+   and sendLoop is  for { select { case <-doneCh: return; case m := <-sendCh: _ = WriteMsg(rw, m) } } *)
+Record pdisp := {
+  d_enq : Z;                   (* ReqWorkConn accepted by Send so far *)
+  d_q : Z;                     (* messages sitting in sendCh *)
+  d_deq : Z;                   (* messages the send loop has taken out so far *)
+  d_sent : Z                   (* ... of which written successfully *)
 }.
 
 Record pst := {
   ps_pc : Z;                   (* ctl.poolCount *)
   ps_ch : pchan;               (* ctl.workConnCh *)
-  ps_req : Z;                  (* ReqWorkConn handed to the dispatcher so far *)
+  ps_disp : pdisp;             (* msgDispatcher: send queue and counters *)
   ps_mapped : bool;            (* ctlManager maps the run id to this control *)
   ps_ddone : bool;             (* dispatcher doneCh closed *)
   ps_crashed : bool;           (* close of a closed channel *)
@@ -124,13 +139,16 @@ Definition pl_init_thr (r : option preq) : tstate :=
   | Some (RUser _ _ _ _) => TU (UTry 0)
   | Some (RTimeout _) => TTimer
   | Some RTeardown => TT TStop
+  | Some RSendLoop => TS SLRun
   end.
 
 Definition pl_init (cfg : pcfg) : pst :=
   let pc := pl_pool_count (cf_client_pc cfg) (cf_server_max cfg) in
   {| ps_pc := pc;
      ps_ch := {| ch_cap := pl_cap pc; ch_q := []; ch_closed := false |};
-     ps_req := pl_start_requests pc;
+     (* Start's poolCount sends: in the queue (maxPoolCount <= the queue capacity assumed; other control
+        messages — Pong, NewProxyResp — are not modelled) *)
+     ps_disp := {| d_enq := pl_start_requests pc; d_q := pl_start_requests pc; d_deq := 0; d_sent := 0 |};
      ps_mapped := true;
      ps_ddone := false;
      ps_crashed := false;
@@ -139,38 +157,48 @@ Definition pl_init (cfg : pcfg) : pst :=
      ps_thr := fun t => pl_init_thr (pl_req_of cfg t);
      ps_log := [] |}.
 
+Definition ps_req (s : pst) : Z := d_enq (ps_disp s).
+Definition ps_sent (s : pst) : Z := d_sent (ps_disp s).
+
 (* setters *)
-Definition set_ch s ch := {| ps_pc := ps_pc s; ps_ch := ch; ps_req := ps_req s; ps_mapped := ps_mapped s;
+Definition set_ch s ch := {| ps_pc := ps_pc s; ps_ch := ch; ps_disp := ps_disp s; ps_mapped := ps_mapped s;
   ps_ddone := ps_ddone s; ps_crashed := ps_crashed s; ps_fate := ps_fate s; ps_user := ps_user s;
   ps_thr := ps_thr s; ps_log := ps_log s |}.
-Definition set_req s r := {| ps_pc := ps_pc s; ps_ch := ps_ch s; ps_req := r; ps_mapped := ps_mapped s;
+Definition set_disp s r := {| ps_pc := ps_pc s; ps_ch := ps_ch s; ps_disp := r; ps_mapped := ps_mapped s;
   ps_ddone := ps_ddone s; ps_crashed := ps_crashed s; ps_fate := ps_fate s; ps_user := ps_user s;
   ps_thr := ps_thr s; ps_log := ps_log s |}.
-Definition set_mapped s b := {| ps_pc := ps_pc s; ps_ch := ps_ch s; ps_req := ps_req s; ps_mapped := b;
+Definition set_mapped s b := {| ps_pc := ps_pc s; ps_ch := ps_ch s; ps_disp := ps_disp s; ps_mapped := b;
   ps_ddone := ps_ddone s; ps_crashed := ps_crashed s; ps_fate := ps_fate s; ps_user := ps_user s;
   ps_thr := ps_thr s; ps_log := ps_log s |}.
-Definition set_ddone s b := {| ps_pc := ps_pc s; ps_ch := ps_ch s; ps_req := ps_req s; ps_mapped := ps_mapped s;
+Definition set_ddone s b := {| ps_pc := ps_pc s; ps_ch := ps_ch s; ps_disp := ps_disp s; ps_mapped := ps_mapped s;
   ps_ddone := b; ps_crashed := ps_crashed s; ps_fate := ps_fate s; ps_user := ps_user s;
   ps_thr := ps_thr s; ps_log := ps_log s |}.
-Definition set_crashed s b := {| ps_pc := ps_pc s; ps_ch := ps_ch s; ps_req := ps_req s; ps_mapped := ps_mapped s;
+Definition set_crashed s b := {| ps_pc := ps_pc s; ps_ch := ps_ch s; ps_disp := ps_disp s; ps_mapped := ps_mapped s;
   ps_ddone := ps_ddone s; ps_crashed := b; ps_fate := ps_fate s; ps_user := ps_user s;
   ps_thr := ps_thr s; ps_log := ps_log s |}.
-Definition set_fate s c f := {| ps_pc := ps_pc s; ps_ch := ps_ch s; ps_req := ps_req s; ps_mapped := ps_mapped s;
+Definition set_fate s c f := {| ps_pc := ps_pc s; ps_ch := ps_ch s; ps_disp := ps_disp s; ps_mapped := ps_mapped s;
   ps_ddone := ps_ddone s; ps_crashed := ps_crashed s; ps_fate := upd (ps_fate s) c f; ps_user := ps_user s;
   ps_thr := ps_thr s; ps_log := ps_log s |}.
-Definition set_user s u v := {| ps_pc := ps_pc s; ps_ch := ps_ch s; ps_req := ps_req s; ps_mapped := ps_mapped s;
+Definition set_user s u v := {| ps_pc := ps_pc s; ps_ch := ps_ch s; ps_disp := ps_disp s; ps_mapped := ps_mapped s;
   ps_ddone := ps_ddone s; ps_crashed := ps_crashed s; ps_fate := ps_fate s; ps_user := upd (ps_user s) u v;
   ps_thr := ps_thr s; ps_log := ps_log s |}.
-Definition set_thr s t v := {| ps_pc := ps_pc s; ps_ch := ps_ch s; ps_req := ps_req s; ps_mapped := ps_mapped s;
+Definition set_thr s t v := {| ps_pc := ps_pc s; ps_ch := ps_ch s; ps_disp := ps_disp s; ps_mapped := ps_mapped s;
   ps_ddone := ps_ddone s; ps_crashed := ps_crashed s; ps_fate := ps_fate s; ps_user := ps_user s;
   ps_thr := upd (ps_thr s) t v; ps_log := ps_log s |}.
-Definition add_log s e := {| ps_pc := ps_pc s; ps_ch := ps_ch s; ps_req := ps_req s; ps_mapped := ps_mapped s;
+Definition add_log s e := {| ps_pc := ps_pc s; ps_ch := ps_ch s; ps_disp := ps_disp s; ps_mapped := ps_mapped s;
   ps_ddone := ps_ddone s; ps_crashed := ps_crashed s; ps_fate := ps_fate s; ps_user := ps_user s;
   ps_thr := ps_thr s; ps_log := e :: ps_log s |}.
 
 (* Dispatcher.Send: select { case <-doneCh: return EOF; case sendCh <- m: return nil }.
-   Before doneCh is closed it always enqueues; afterwards either branch may be taken ([eof]). *)
-Definition pl_send_fails (s : pst) (eof : bool) : bool := ps_ddone s && eof.
+   Neither case ready (queue full, doneCh open): the caller blocks.  Both ready: either ([eof]). *)
+Inductive psendres := SendOk | SendEOF | SendBlocked.
+Definition pl_send (cfg : pcfg) (s : pst) (eof : bool) : psendres :=
+  let room := d_q (ps_disp s) <? cf_qcap cfg in
+  if ps_ddone s then (if room then (if eof then SendEOF else SendOk) else SendEOF)
+  else (if room then SendOk else SendBlocked).
+Definition pl_enqueue (s : pst) : pst :=
+  let d := ps_disp s in
+  set_disp s {| d_enq := d_enq d + 1; d_q := d_q d + 1; d_deq := d_deq d; d_sent := d_sent d |}.
 
 (* --- work-connection arrival: Service.handleConnection / RegisterWorkConn, Control.RegisterWorkConn --- *)
 Definition pl_step_work (s : pst) (t : nat) (p : wpc) : pst :=
@@ -201,8 +229,11 @@ Definition pl_step_user (cfg : pcfg) (s : pst) (t : nat) (p : upc)
       | (_, REmpty) => set_thr s t (TU (UReq i))
       end
   | UReq i =>                           (* Send(ReqWorkConn); error -> "control is already closed" *)
-      if pl_send_fails s eof then pl_user_close s t
-      else set_thr (set_req s (ps_req s + 1)) t (TU (UWait i))
+      match pl_send cfg s eof with
+      | SendEOF => pl_user_close s t
+      | SendOk => set_thr (pl_enqueue s) t (TU (UWait i))   (* only now does GetWorkConn create its timer *)
+      | SendBlocked => s
+      end
   | UWait i =>                          (* select { case c, ok = <-workConnCh: / case <-time.After: } — timer: see timeout thread *)
       match ch_try_recv (ps_ch s) with
       | (ch, RGot c) => set_thr (set_fate (set_ch s ch) c (PHeld t)) t (TU (URepl i c))
@@ -210,8 +241,11 @@ Definition pl_step_user (cfg : pcfg) (s : pst) (t : nat) (p : upc)
       | (_, REmpty) => s                            (* blocked *)
       end
   | URepl i c =>                        (* _ = Send(ReqWorkConn) *)
-      let s1 := if pl_send_fails s eof then s else set_req s (ps_req s + 1) in
-      set_thr s1 t (TU (UWrite i c))
+      match pl_send cfg s eof with
+      | SendEOF => set_thr s t (TU (UWrite i c))
+      | SendOk => set_thr (pl_enqueue s) t (TU (UWrite i c))
+      | SendBlocked => s
+      end
   | UWrite i c =>                       (* WriteMsg(workConn, StartWorkConn{ProxyName, SrcAddr, SrcPort, ...}) *)
       if cf_dead cfg c then
         let s1 := set_fate s c PClosed in            (* workConn.Close() *)
@@ -248,6 +282,22 @@ Definition pl_step_teardown (s : pst) (t : nat) (p : tpc) : pst :=
   | TFin => s
   end.
 
+(* --- Dispatcher.sendLoop --- *)
+Definition pl_step_sendloop (cfg : pcfg) (s : pst) (t : nat) (p : spc) : pst :=
+  match p with
+  | SLRun =>
+      if ps_ddone s then set_thr s t (TS SLEnd)      (* case <-doneCh: return (what is still queued is never
+                                                        observed; Send no longer blocks once doneCh is closed) *)
+      else if 0 <? d_q (ps_disp s) then
+        let d := ps_disp s in
+        if cf_wfail cfg (d_deq d) then
+          let s1 := set_disp s {| d_enq := d_enq d; d_q := d_q d - 1; d_deq := d_deq d + 1; d_sent := d_sent d |} in
+          if cf_sl_survives cfg then s1 else set_thr s1 t (TS SLEnd)
+        else set_disp s {| d_enq := d_enq d; d_q := d_q d - 1; d_deq := d_deq d + 1; d_sent := d_sent d + 1 |}
+      else s                                         (* nothing queued: blocked *)
+  | SLEnd => s
+  end.
+
 Definition pl_step (cfg : pcfg) (s : pst) (t : nat) : pst :=
   match ps_thr s t with
   | TNone => s
@@ -263,6 +313,7 @@ Definition pl_step (cfg : pcfg) (s : pst) (t : nat) : pst :=
       | Some (RTimeout u) => pl_step_timer s u
       | _ => s
       end
+  | TS p => pl_step_sendloop cfg s t p
   end.
 
 Definition pl_run (cfg : pcfg) (sched : list nat) (s : pst) : pst := fold_left (pl_step cfg) sched s.
@@ -292,7 +343,7 @@ Definition pl_view (s : pst) (c : nat) : vfate :=
 
 Definition pl_thread_finished (ts : tstate) : bool :=
   match ts with
-  | TNone | TW WDone | TU UDone | TT TFin | TTimer => true
+  | TNone | TW WDone | TU UDone | TT TFin | TTimer | TS _ => true
   | _ => false
   end.
 
